@@ -28,6 +28,20 @@ theorem automaton_chunk_law {σ β : Type} (i : σ) (stp : σ → Byte → σ ×
       (((ofStep i stp).feed ((ofStep i stp).feed s a).1 b).1, ((ofStep i stp).feed s a).2 ++ ((ofStep i stp).feed ((ofStep i stp).feed s a).1 b).2) :=
   (ofStep i stp).law s a b
 
+/-- interact() included: over any history of reads, sends and chunks copied by interact(), what `logfile_read` holds is the
+    decoding of the child's whole byte stream by the one persistent decoder (a character cut at the hand-over from expect()
+    to interact() is completed, not lost) -/
+theorem interact_handover_decodes_whole_stream (dec : IncDecoder σd Nat) (enc : IncEncoder σe) (cfg : Cfg) (ops : List Op2) :
+    readText (run2 dec enc cfg (Sess.init dec enc) ops).logRead = (dec.feed dec.init (childBytes ops)).2 := by
+  have := (Sess.logRead_decodes_whole_stream dec enc cfg ops (Sess.init dec enc)).1
+  simpa [Sess.init, readText, writesOf] using this
+
+/-! non-vacuity: expect() read `caf` + the first byte of `é`, interact() copies the second byte and `!` -/
+def u8Enc : IncEncoder Unit := ⟨(), fun s a => (s, a.flatMap utf8Encode), by intro s a b; simp, by intro s; rfl⟩
+
+example : readText (run2 utf8 u8Enc ⟨[10], 4, 3⟩ (Sess.init utf8 u8Enc) [.op (.read [0x63, 0x61, 0x66, 0xC3]), .op (.sendline [0x67, 0x6F]), .iread [0xA9, 0x21]]).logRead
+    = [0x63, 0x61, 0x66, 0xE9, 0x21] := by decide
+
 /-! non-vacuity: "héllo€" cut inside both multi-byte characters -/
 example : (deliver utf8 utf8.init [[0x68, 0xC3], [0xA9, 0x6C, 0x6C, 0x6F, 0xE2, 0x82], [0xAC]]).2
     = [0x68, 0xE9, 0x6C, 0x6C, 0x6F, 0x20AC] := by decide
